@@ -2,7 +2,7 @@
    form the molecule, the rest of the class are its overflow fragments; TF = size of the class. *)
 From Coq Require Import ZArith List Bool Lia Permutation.
 Import ListNotations.
-From SCMO Require Import Lib.Val Model.C06 Proofs.C06 Proofs.C06_dup Proofs.C06_main Proofs.C06_greedy.
+From SCMO Require Import Lib.Val Model.C06 Proofs.C06_shape Proofs.C06 Proofs.C06_dup Proofs.C06_main Proofs.C06_greedy.
 Open Scope Z_scope.
 
 Definition capclass_mol (c : cfg) (K : nat) (vf : list frag) (m : mol) : Prop :=
@@ -150,7 +150,7 @@ Lemma exact_cap_main c k frags out : c_d c = 0 -> exact_site c -> c_cap c = Some
   NoDup (map (mkey c) ms).
 Proof.
   intros Hd He Hcap Hk H. cbn zeta.
-  assert (Hb : cap_bad c = false) by (unfold cap_bad; rewrite Hcap; apply Z.leb_gt; lia).
+  assert (Hb : cap_bad c = false) by (rewrite cap_bad_shape, Hcap; apply Z.leb_gt; lia).
   destruct (normal_parts _ _ _ H) as [(_ & ->)|(Hb' & _)]; [|congruence].
   destruct (capexact_fold c k frags Hd He Hcap Hk) as (Hcl & Hnd & Hcov).
   split; [|split]; try assumption.
